@@ -26,6 +26,7 @@ struct Cfg {
     trading: bool,
     seeds: u64,
     base_seed: u64,
+    t0: u64,
 }
 
 #[derive(Default)]
@@ -47,7 +48,7 @@ fn feat(s: &mut Stats, k: &str) {
 
 fn run_path(cfg: &Cfg, path: &[Value], seed: u64) -> Result<(Value, Vec<Value>), String> {
     guarded(AssertUnwindSafe(|| {
-        let mut env: Box<dyn EnvDyn> = new_env(&cfg.kind, cfg.levels, 0, &cfg.ticks, cfg.step, cfg.trading);
+        let mut env: Box<dyn EnvDyn> = new_env(&cfg.kind, cfg.levels, cfg.t0, &cfg.ticks, cfg.step, cfg.trading);
         let mut rng = Xoroshiro128StarStar::seed_from_u64(seed);
         let mut sched = Vec::new();
         for l in path {
@@ -138,7 +139,7 @@ fn replay_line(cfg: &Cfg, idx: u64, v: &Value, s: &mut Stats) {
             if s.mismatches.iter().filter(|m| m["offgrid_modify"] == json!(offgrid)).count() < 8 {
                 s.mismatches.push(json!({"what": what, "offgrid_modify": offgrid, "path": path, "seed": seed, "got": got, "n_allowed": outs.len(),
                     "allowed_first": outs.get(0).cloned().unwrap_or(Value::Null),
-                    "cfg": {"kind": cfg.kind, "levels": cfg.levels, "ticks": cfg.ticks, "step": cfg.step, "trading": cfg.trading}}));
+                    "cfg": {"kind": cfg.kind, "levels": cfg.levels, "ticks": cfg.ticks, "step": cfg.step, "trading": cfg.trading, "t0": cfg.t0}}));
             }
             break;
         }
@@ -149,7 +150,7 @@ fn replay_line(cfg: &Cfg, idx: u64, v: &Value, s: &mut Stats) {
 fn main() {
     quiet_panics();
     let args: Vec<String> = std::env::args().collect();
-    let mut cfg = Cfg { kind: "env".into(), levels: 2, ticks: vec![1], step: 10, trading: true, seeds: 8, base_seed: 1 };
+    let mut cfg = Cfg { kind: "env".into(), levels: 2, ticks: vec![1], step: 10, trading: true, seeds: 8, base_seed: 1, t0: 0 };
     let mut single: Option<String> = None;
     let mut i = 1;
     while i < args.len() {
@@ -158,6 +159,7 @@ fn main() {
             "--levels" => { cfg.levels = args[i + 1].parse().unwrap(); i += 1 }
             "--ticks" => { cfg.ticks = args[i + 1].split(',').map(|x| x.parse().unwrap()).collect(); i += 1 }
             "--step" => { cfg.step = args[i + 1].parse().unwrap(); i += 1 }
+            "--t0" => { cfg.t0 = args[i + 1].parse().unwrap(); i += 1 }
             "--trading" => { cfg.trading = args[i + 1].parse().unwrap(); i += 1 }
             "--seeds" => { cfg.seeds = args[i + 1].parse().unwrap(); i += 1 }
             "--base-seed" => { cfg.base_seed = args[i + 1].parse().unwrap(); i += 1 }
@@ -173,6 +175,7 @@ fn main() {
         cfg.levels = c["levels"].as_u64().unwrap() as usize;
         cfg.ticks = c["ticks"].as_array().unwrap().iter().map(|x| x.as_u64().unwrap() as u32).collect();
         cfg.step = c["step"].as_u64().unwrap();
+        cfg.t0 = c.get("t0").and_then(|x| x.as_u64()).unwrap_or(0);
         cfg.trading = c["trading"].as_bool().unwrap();
         let path = v["path"].as_array().unwrap().clone();
         let r = run_path(&cfg, &path, v["seed"].as_u64().unwrap_or(1));
